@@ -6,7 +6,7 @@ src, sid, prop, detected = sys.argv[1:5]
 needs = " ".join(sys.argv[5:])
 dst = os.path.join("/verif/seeded", sid)
 os.makedirs(dst, exist_ok=True)
-for f in ("patch.diff", "demo.py", "notes.md"):
+for f in ("patch.diff", "patch_corrected.diff", "demo.py", "notes.md"):
     if os.path.exists(os.path.join(src, f)):
         shutil.copy(os.path.join(src, f), os.path.join(dst, f))
 meta = {
@@ -17,5 +17,12 @@ meta = {
     "detected_by_check": detected,
     "ran": f"tools/try_seed.sh /verif/seeded/{sid} {prop}",
 }
+if os.path.exists(os.path.join(src, "patch_corrected.diff")):
+    meta["origin"] += "; asked for a complete, realistic pull request (40-150 changed lines) hiding one subtle defect"
+    meta["corrected_variant"] = ("patch_corrected.diff = the same pull request with the defect repaired; tools/try_pr.sh ran the "
+                                 "check on it too: silent (exit 0) - false-alarm test on a large behaviour-preserving diff")
+    meta["ran"] = f"tools/try_pr.sh /verif/seeded/{sid} {prop}"
+if os.environ.get("KEEP_NOTE"):
+    meta["note"] = os.environ["KEEP_NOTE"]
 json.dump(meta, open(os.path.join(dst, "meta.json"), "w"), indent=1)
 print("kept", dst)
